@@ -1,5 +1,5 @@
 (* C11 — extraction of the executable model (ExtrOcamlBasic only). *)
 Require Extraction.
 Require Import ExtrOcamlBasic.
-From Verif.C11 Require Import Extracted Model.
-Extraction "model_ml.ml" process_all parent_new meta_match archive backup_tree_action.
+From Verif.C11 Require Import Extracted Model ModelIter ModelSelect.
+Extraction "model_ml.ml" select titer balanced backup_stream process_all parent_new meta_match archive backup_tree_action.
